@@ -281,24 +281,22 @@ def child_shape_inputs(ctx):
 
 
 def _pinned_child_shape_exceptions():
-    import json, os
-    p = os.path.join(os.path.dirname(__file__), 'C09_child_shape_pinned.json')
+    """the inputs of known finding KF-C09-1 (known_findings.json, identified by input; keyword case does not matter for the shape)"""
     try:
-        # keyword case does not matter for the shape: the pinned inputs are compared case-insensitively
-        return set(x.lower() for x in json.load(open(p))['delimiter_not_a_direct_child'])
+        for k in load_known_findings():
+            if k.get('id') == 'KF-C09-1':
+                return set(w['input'].lower() for w in k.get('witnesses', []))
     except Exception:
-        return None
+        pass
+    return set()
 
 
 def child_shape_sweep(ctx):
     """model-free form of DOMAIN(delimsafe) on a finite family: wherever the leaf-level oracle finds the stack matcher's groups, each group's first
     child must be its opener token and its last child (before trailing blanks / Comment groups) its closer — except for the inputs pinned in
-    C09_child_shape_pinned.json (the behaviour of the tree the check was written against: content that a later pass joins with a delimiter,
-    e.g. `( := )`, `( x as )`, `( x:: )`); an input that leaves the pinned set is fine, one that enters it is a failure"""
+    known finding KF-C09-1 (content that a later pass joins with a delimiter, e.g. `( := )`, `( x as )`, `( x:: )`); an input that
+    leaves that set is fine, one that enters it is a violation"""
     pinned = _pinned_child_shape_exceptions()
-    if pinned is None:
-        ctx.notes.append('C09_child_shape_pinned.json missing: child-shape sweep skipped')
-        return
     n = 0
     for s in child_shape_inputs(ctx):
         n += 1
@@ -308,18 +306,33 @@ def child_shape_sweep(ctx):
             ctx.fail('parse raised ' + type(e).__name__, s, observed=repr(e), required='tree')
             continue
         ctx.evaluations += 1
-        if not all(child_shape_ok(st) for st in stmts) and s.lower() not in pinned:
+        if not all(child_shape_ok(st) for st in stmts):
+            # every deviation is reported; the ones listed under KF-C09-1 are classified as that known finding (classify), anything else is a violation
             ctx.fail('a bracket/block group does not start with its opener token / end with its closer token as direct children', s,
                      observed='delimiter wrapped into a sub-group', required='opener first child, closer last child (as on the pinned tree)', sweep='child-shape')
     ctx.count('child-shape sweep inputs', n)
 
 
+def classify(f, kf):
+    """KF-C09-1 is identified by input: a child-shape deviation on one of its listed inputs (case-insensitively); nothing else is suppressed"""
+    if (f.get('extra') or {}).get('sweep') == 'child-shape' or f.get('sweep') == 'child-shape':
+        for k in kf:
+            if k['id'] == 'KF-C09-1' and isinstance(f.get('input'), str) and f['input'].lower() in set(w['input'].lower() for w in k.get('witnesses', [])):
+                return k['id']
+    return None
+
+
+def replay_known(ctx, k):
+    if k.get('id') == 'KF-C09-1':
+        return any(not all(child_shape_ok(st) for st in sqlparse.parse(w['input'])) for w in k.get('witnesses', []))
+    return None
+
+
 def replay(ctx, payload):
     n0 = len(ctx.failures)
     if (payload.get('extra') or {}).get('sweep') == 'child-shape':
-        pinned = _pinned_child_shape_exceptions() or set()
         s = payload['input']
-        if s.lower() not in pinned and not all(child_shape_ok(st) for st in sqlparse.parse(s)):
+        if not all(child_shape_ok(st) for st in sqlparse.parse(s)):
             ctx.fail('a bracket/block group does not start with its opener token / end with its closer token as direct children', s,
                      observed='delimiter wrapped into a sub-group', required='opener first child, closer last child (as on the pinned tree)', sweep='child-shape')
         return len(ctx.failures) > n0
